@@ -24,7 +24,8 @@ RULE = ("sibling stages s1..sn (n in {2,3}) sharing a mutex key, a deferred-choi
         "workflows, first / last / one seeded point for the 3-stage ones), every ordered pair (a, b) of every workflow; a rolled-back-and-retried claim "
         "attempt is no model op and its peeks are superseded by the retry's; model comparison, continuation and monitors as for the other schedules. "
         "Plus two fixed regression scenarios: a retry loop whose stages share a mutex (jump re-arm of the owner, F30) and the sweep "
-        "of a terminal execution while the holder is SUSPENDED (F31).")
+        "of a terminal execution while the holder is SUSPENDED (F31); and one liveness scenario over a LONG wait: the waiter's StartStage is polled 14 times "
+        "through the real poll_one (attempt limit, DLQ sweep after every round) while the holder is SUSPENDED, then the holder finishes - the waiter must run.")
 ASSUMPTIONS = [
     "Mode B explores the interleavings SQLite's single-writer locking permits at transaction granularity plus all read windows, nested to depth 2 (harness/modeb.py)",
     "the bump-retry family has one foreign non-claim write per StartStage (one in-handler retry, _claim_retry = 1 of at most 5) and one sibling start placed "
@@ -638,6 +639,54 @@ def scenario_sweep_terminal() -> dict:
         shutil.rmtree(d, ignore_errors=True)
 
 
+LONGWAIT_SIG = "mutex-waiter-stranded:after-long-wait-behind-suspended-holder"
+
+
+def scenario_long_wait(rounds: int = 14) -> dict:
+    """liveness over a LONG wait: the holder is SUSPENDED (waiting for a signal) while the waiter's StartStage is polled
+    `rounds` times through the real poll_one (which filters on the attempt limit) with the DLQ sweep after every round;
+    then the holder is signalled and finishes: the waiter must still be there and run."""
+    _setup_process()
+    from harness import core
+    from harness import modeb as mb
+    from stabilize.queue.messages import SignalStage
+
+    d = core.scratch_dir()
+    env = mb.fresh_env(d, "longwait")
+    try:
+        env.create_workflow([mb.stage("s1", mutex_key="m", context={"_script": "U"}), mb.stage("s2", mutex_key="m")])
+        env.start()
+        env.deliver(env.find("SW")[0])
+        env.deliver(env.find("SS(s1)")[0])
+        env.drain(max_steps=10, hold=lambda c: not c.endswith("(s1)"))           # s1 runs its task and suspends
+        polled = 0
+        attempts_seen = []
+        for _ in range(rounds):
+            env.ro.execute("UPDATE queue_messages SET deliver_at = datetime('now','-1 hour'), locked_until = NULL")
+            m = env.queue.poll_one()
+            if m is None:
+                break
+            polled += 1
+            attempts_seen.append(getattr(m, "attempts", None))
+            env.handle_and_ack(m)
+            env.queue.check_and_move_expired()
+        env.push(SignalStage(execution_type=env.wf_type, execution_id=env.wf_id, stage_id=env.ids["s1"], signal_name="go", signal_data={}, persistent=False))
+        env.ro.execute("UPDATE queue_messages SET deliver_at = datetime('now','-1 hour'), locked_until = NULL")
+        reason, steps = env.drain(max_steps=80)
+        s1, s2 = env.stage_row("s1")["status"], env.stage_row("s2")["status"]
+        dlq = env.q("SELECT COUNT(*) c FROM queue_messages_dlq")[0]["c"] if env.q("SELECT name FROM sqlite_master WHERE name='queue_messages_dlq'") else 0
+        v = []
+        if s2 != "SUCCEEDED" or env.wf_status() not in mb.FINAL_WF:
+            v.append((f"holder s1 was SUSPENDED while the waiter's StartStage(s2) was polled {polled} of {rounds} times (attempts seen {attempts_seen}); "
+                      f"after the holder finished ({s1}) the waiter is {s2}, workflow {env.wf_status()}, {dlq} message(s) in the DLQ: "
+                      f"the waiting stage never ran", LONGWAIT_SIG))
+        obs = f"{s1},{s2} ; polled={polled} ; dlq={dlq} ; wf={1 if env.wf_status() in mb.FINAL_WF else 0}"
+        return {"violations": v, "state": env.state_line(), "claimlog": env.claimlog(), "drain": [reason, steps], "observe": obs}
+    finally:
+        env.close()
+        shutil.rmtree(d, ignore_errors=True)
+
+
 # --------------------------------------------------------------------------------------
 # entry points
 # --------------------------------------------------------------------------------------
@@ -744,6 +793,13 @@ def run_scenarios(ctx) -> None:
         state = " ; ".join(x.strip() for x in out[0].split(";")[1:4])
         if r["observe"] != state:
             ctx.corr_failures.append({"suite": "claims-scenarios", "input": name, "driver_line": line, "impl": r["observe"], "model": state})
+    # liveness over a long wait (implementation only: the Claims model has no attempt counters / dead-letter queue)
+    r = scenario_long_wait()
+    ctx.count({"scenario": "long-wait"}, nontrivial=True)
+    ctx.tag("scenario:long-wait")
+    ctx.extra.setdefault("scenarios", {})["long-wait"] = {k: r[k] for k in r if k != "violations"}
+    for what, sig in r["violations"]:
+        ctx.violation(what, sig, {"scenario": "long-wait", **{k: r[k] for k in r if k != "violations"}})
 
 
 def run(ctx) -> None:
@@ -816,6 +872,8 @@ def replay_body(body: dict) -> dict:
         return scenario_rearm()
     if b.get("scenario") == "sweep-terminal":
         return scenario_sweep_terminal()
+    if b.get("scenario") == "long-wait":
+        return scenario_long_wait()
     sched = b["schedule"]
     wf = Wf(**sched["wf"])
     lab = Lab()
